@@ -43,3 +43,9 @@ package merge
 
 // What a field delta produced by markReplaced decodes to: scalars to themselves, everything else to the wrapped value.
 //@ lemma replaced_roundtrip: forall x interface{}, v interface{}, w interface{} :: ((scalarKind(v) && x == v) || (!scalarKind(v) && x is []interface{} && len(x.([]interface{})) == 1 && x.([]interface{})[0] == w)) ==> ((scalarKind(x) && x == v) || (!scalarKind(x) && x is []interface{} && len(x.([]interface{})) >= 1 && x.([]interface{})[0] == w))
+
+// The JSON image of a compressed entry (encoding/json: int -> float64, [2]int -> two-element array; trusted)
+// turns diff's postcondition `covers` into uncompressIndices' precondition `jcovers`: compress and
+// uncompress are inverse through the wire format.
+//@ pred jsonImage(e interface{}, j interface{}) = (e is int && j is float64 && j.(float64) == toreal(e.(int))) || (e is [2]int && j is []interface{} && len(j.([]interface{})) == 2 && j.([]interface{})[0] is float64 && j.([]interface{})[1] is float64 && j.([]interface{})[0].(float64) == toreal(e.([2]int)[0]) && j.([]interface{})[1].(float64) == toreal(e.([2]int)[1]))
+//@ lemma reorder_roundtrip: forall e interface{}, j interface{}, indS []int, ind map[int]int, lo int, hi int :: covers(e, indS, lo, hi) && lo < hi && (forall t int :: lo <= t && t < hi ==> ind[t] == indS[t]) && jsonImage(e, j) ==> jcovers(j, ind, lo, hi)
